@@ -272,6 +272,10 @@ class Monitor:
         elif a == 'refuse':
             s.cmd('net_ep agg.example 3332 connect=2')
             self.refusing = True
+            # one refused attempt, or (one time in three) a server that keeps refusing until the end of the schedule
+            self.refuse_hold = getattr(self, 'refuse_hold', False) or rng.random() < 0.33
+            if self.refuse_hold:
+                self.trace[-1] = 'refuse(hold)'
         elif a == 'wouldblock':
             k = rng.choice([0, 1, 5, 40])
             script = ('%d,0' % k) if k else '0'
@@ -330,8 +334,9 @@ class Monitor:
         if len(self.s.tcp_order) > nconn:
             if had_refuse:
                 self.cause_all('connection refused')
-                s.cmd('net_ep agg.example 3332 connect=0')
-                self.refusing = False
+                if not getattr(self, 'refuse_hold', False):
+                    s.cmd('net_ep agg.example 3332 connect=0')
+                    self.refusing = False
             if getattr(self, 'ep_script', False):
                 s.cmd('net_ep agg.example 3332 send=-')
                 self.ep_script = False
@@ -385,6 +390,29 @@ class Monitor:
         """bounded progress: faults stop, every sent request gets its reply, the clock passes every timeout"""
         self.trace.append('DRAIN')
         s = self.s
+        if getattr(self, 'refusing', False) and getattr(self, 'refuse_hold', False):
+            # the server is still refusing every NEW connection (an established one works normally from now on): whatever needs a connection has to come
+            # back (as an error) within a bounded number of runs
+            s.cmd('net_ep agg.example 3332 connect=2 send=- recv=-')
+            for fd, i in self.conns():
+                s.cmd('net_conn %d send=- recv=- pollout=1 pollin=1' % fd)
+            self.now = max(self.now, getattr(self, 'max_now', self.now))      # (after backward steps of the clock the client may rightly sit still until then)
+            for rnd in range(2 * self.cache + 8):
+                if not self.outstanding():
+                    break
+                self.now += 1
+                s.cmd('clock %d' % self.now)
+                self.trace.append('run')
+                self.run()
+                for q in self.outstanding():      # (a connection established before the refusals began still works)
+                    if q.sent and not q.valid_reply and self.conns():
+                        self.push(S.aggr_response(dict(req_id=q.id), self.sig_for(q), self.key))
+                        q.valid_reply = True
+            left = [q for q in self.outstanding() if not q.sent]
+            self.r.count('drains_under_persistent_refusal')
+            if left:
+                self.viol('request-not-failed-while-server-refuses', '%d accepted request(s) that were never written are still outstanding after %d runs against a server that refuses every connection: %s' % (len(left), 2 * self.cache + 8, [q.tag for q in left]))
+        self.refuse_hold = False
         s.cmd('net_ep agg.example 3332 connect=0 send=- recv=-')
         self.refusing = False
         for fd, i in self.conns():
